@@ -598,6 +598,10 @@ class List(list, base.Symbolic, pg_typing.CustomTyping):
     old_value = self.sym_getattr(index)
     super().__delitem__(index)
 
+    # Detach old value from object tree.
+    if isinstance(old_value, base.TopologyAware):
+      old_value.sym_setparent(None)
+
     if flags.is_change_notification_enabled():
       self._notify_field_updates([
           base.FieldUpdate(
@@ -715,6 +719,10 @@ class List(list, base.Symbolic, pg_typing.CustomTyping):
     if self._value_spec and self._value_spec.min_size > 0:
       raise ValueError(
           f'List cannot be cleared: min size is {self._value_spec.min_size}.')
+    # Detach the removed values from object tree.
+    for item in self.sym_values():
+      if isinstance(item, base.TopologyAware):
+        item.sym_setparent(None)
     super().clear()
 
   def sort(self, *, key=None, reverse=False) -> None:
